@@ -8,7 +8,7 @@ from mon.case import Inconclusive, Precondition
 from mon.gen import mdp as G
 
 PROP = "C17"
-CASES = {"quick": 500, "thorough": 8000}
+CASES = {"quick": 500, "thorough": 40000}
 CASE_TIMEOUT = 90
 REQUIRED = ["steps_validated", "unknown_pairs_checked", "known_pairs_checked", "policy_states_checked",
             "episodes_observed"]
